@@ -9,6 +9,7 @@
 #define PART(k) (VERIF_PART == -1 || VERIF_PART == (k))
 #if PART(1)
 #include <bspline/interpolation/interpolation.h>
+#include "common/qsolver.h"
 #endif
 #include <cfloat>
 #include <list>
@@ -298,34 +299,6 @@ struct IntC {
 };
 void check_interp(const IntC &c, vf::Obs &o);
 #if PART(1)
-struct Singular : std::runtime_error { Singular() : std::runtime_error("singular") {} };
-class QSolver final : public bspline::interpolation::internal::ISolver<Q> {
-  size_t n_;
-  std::vector<std::vector<R>> M_;
-  std::vector<R> b_, x_;
-  std::vector<Q> Mq_, bq_, xq_;
- public:
-  explicit QSolver(size_t n) : n_(n), Mq_(n * n, Q(0)), bq_(n, Q(0)), xq_(n, Q(0)) {}
-  Q &M(size_t i, size_t j) override { return Mq_.at(i * n_ + j); }
-  Q &b(size_t i) override { return bq_.at(i); }
-  Q &x(size_t i) override { return xq_.at(i); }
-  void solve() override {
-    std::vector<std::vector<R>> A(n_, std::vector<R>(n_ + 1));
-    for (size_t i = 0; i < n_; i++) { for (size_t j = 0; j < n_; j++) A[i][j] = vq::raw(Mq_[i * n_ + j]); A[i][n_] = vq::raw(bq_[i]); }
-    for (size_t col = 0; col < n_; col++) {
-      size_t piv = col;
-      while (piv < n_ && A[piv][col] == 0) piv++;
-      if (piv == n_) throw Singular();
-      std::swap(A[piv], A[col]);
-      for (size_t r = 0; r < n_; r++) {
-        if (r == col || A[r][col] == 0) continue;
-        R f = A[r][col] / A[col][col];
-        for (size_t k = col; k <= n_; k++) A[r][k] -= f * A[col][k];
-      }
-    }
-    for (size_t i = 0; i < n_; i++) xq_[i] = vq::make(A[i][n_] / A[i][i]);
-  }
-};
 template <class T, size_t order>
 static int interp_call(const IntC &c, std::string &what) {
   using namespace bspline::interpolation;
